@@ -178,14 +178,38 @@ def _run_sync(ctx: contextvars.Context, w: World, arg: Any) -> Tuple[str, Any]:
         return ("raise", err)
 
 
-def _run_async(ctx: contextvars.Context, w: World, arg: Any, susp_k: int, how: int) -> Tuple[str, Any]:
-    """Step the coroutine by hand inside ctx; at the susp_k-th suspension inject: how 0 throw(kind), 1 close()."""
+def _helper_and_marked_context() -> Tuple[Any, contextvars.Context]:
+    """A contracted function ``helper`` and a context that was copied WHILE helper's precondition was being evaluated
+    (what a task created inside a condition, or a garbage-collected fire-and-forget task, gets)."""
+    box = []  # type: List[contextvars.Context]
+
+    def cond(x: Any) -> Any:
+        if not box:
+            box.append(contextvars.copy_context())
+        return x > 0
+
+    def helper(x: Any) -> Any:
+        return x
+    helper = icontract.require(cond, error=lambda: Tag("helper"))(helper)
+    helper(1)
+    return helper, box[0]
+
+
+def _run_async(ctx: contextvars.Context, w: World, arg: Any, susp_k: int, how: int,
+               closer: Optional[contextvars.Context] = None) -> Tuple[str, Any]:
+    """Step the coroutine by hand inside ctx; at the susp_k-th suspension inject: how 0 throw(kind), 1 close(),
+    2 close() from the other context ``closer`` (a coroutine destroyed by the garbage collector, or closed by hand, while
+    another task is running)."""
     coro = ctx.run(w.call, arg)
     n = 0
     try:
         while True:
             ctx.run(coro.send, None)
             if n == susp_k:
+                if how == 2:
+                    assert closer is not None
+                    closer.run(coro.close)
+                    return ("closed", None)
                 if how == 1:
                     ctx.run(coro.close)
                     return ("closed", None)
@@ -201,7 +225,7 @@ def _run_async(ctx: contextvars.Context, w: World, arg: Any, susp_k: int, how: i
 
 def run_fault(shape: str, mode: str, k: int, kind: int, boolish: bool, nfault: int, susp_k: int, how: int,
               t_pre0: bool, t_pre1: bool, t_post0: bool, t_inv0: bool) -> Tuple[bool, bool]:
-    k, kind, nfault, susp_k, how = conc(k, 0, 12), conc(kind, 0, 4), conc(nfault, 1, 2), conc(susp_k, -1, 8), conc(how, 0, 1)
+    k, kind, nfault, susp_k, how = conc(k, 0, 12), conc(kind, 0, 4), conc(nfault, 1, 2), conc(susp_k, -1, 8), conc(how, 0, 2)
     if kind == 4 and _is_async(shape):
         kind = 0  # a StopIteration cannot leave a coroutine (PEP 479 turns it into RuntimeError)
     boolish = True if boolish else False
@@ -214,6 +238,14 @@ def run_fault(shape: str, mode: str, k: int, kind: int, boolish: bool, nfault: i
     w.kind = kind
     ok = True
     ctx = contextvars.Context()
+    helper = None  # type: Any
+    closer = None  # type: Optional[contextvars.Context]
+    if how == 2:
+        # the coroutine runs in a context that already carries a mark (of ``helper``); it is closed from ``closer``, in
+        # which the probes are then made
+        with untraced():
+            closer = contextvars.Context()
+            helper, ctx = closer.run(_helper_and_marked_context)
     arg = Val(w) if mode == "default_reprlib" else 7
     fired = False
     faulted_outcomes = []
@@ -222,7 +254,7 @@ def run_fault(shape: str, mode: str, k: int, kind: int, boolish: bool, nfault: i
         del w.log[:]
         w.truth = {"pre0": t_pre0, "pre1": t_pre1, "post0": t_post0, "inv0": t_inv0}
         if _is_async(shape):
-            out = _run_async(ctx, w, arg, susp_k, how)
+            out = _run_async(ctx, w, arg, susp_k, how, closer)
         else:
             out = _run_sync(ctx, w, arg)
         faulted_outcomes.append(out[0])
@@ -267,6 +299,14 @@ def run_fault(shape: str, mode: str, k: int, kind: int, boolish: bool, nfault: i
         return (tag, detail, tuple(w.log))
 
     bad_name = "inv0" if shape in ("method", "amethod") else "pre0"
+    if closer is not None:
+        # the context which closed the coroutine must be what it was: its own contracted calls are still checked
+        ctx = closer
+        try:
+            closer.run(helper, -1)
+            ok = False
+        except Tag:
+            pass
     for truth in ({bad_name: False}, {}):
         here = probe(ctx, dict(truth))
         fresh_ctx = probe(contextvars.Context(), dict(truth))
@@ -322,7 +362,7 @@ def harnesses(tier: str) -> List[H]:
                          timeout=900 if tier == "quick" else 3600,
                          family="async {}: fault raised by user code at the k-th transition".format(shape), family_size=88))
             # (b) cancellation / exception thrown in / close() at the k-th suspension point
-            params = [I("susp_k", 0, 7 if shape == "afunc" else 3), I("how", 0, 1), I("kind", 0, 3)]
+            params = [I("susp_k", 0, 7 if shape == "afunc" else 3), I("how", 0, 2), I("kind", 0, 3)]
             defaults = {"k": -1 + 0, "boolish": False, "nfault": 1, "t_pre1": True, "t_inv0": True, "t_pre0": True, "t_post0": True}
             defaults["k"] = 12  # never fires from user code
             if shape == "afunc":
@@ -336,5 +376,6 @@ def harnesses(tier: str) -> List[H]:
                          timeout=900 if tier == "quick" else 3600,
                          family="async {}: at the k-th suspension point (awaiting conditions, capture, body) an exception of "
                                 "each kind incl. CancelledError is thrown into the coroutine, or the coroutine is "
-                                "closed".format(shape), family_size=8 * 2 * 4))
+                                "closed, or it is closed from another context while its own context carries the mark of "
+                                "another function".format(shape), family_size=8 * 3 * 4))
     return out
